@@ -747,6 +747,26 @@ func (e *Enc) encodeInstr(fr *frame, b *ssa.BasicBlock, idx int, in ssa.Instruct
 	case *ssa.RunDefers:
 		e.runDefersAt(fr, st, b)
 	case *ssa.Go:
+		// A spawned function with a contract that declares a frame: its preconditions must hold at
+		// the go statement and (assuming data-race freedom) everything in its frame may change at
+		// any later time, nothing else; its postconditions are not available to the spawner.
+		if callee := x.Call.StaticCallee(); callee != nil && !x.Call.IsInvoke() {
+			if c := e.P.contractFor(callee); c != nil && c.HasMod {
+				var args, bindings []Val
+				for _, a := range x.Call.Args {
+					args = append(args, e.val(a))
+				}
+				if mc, ok := x.Call.Value.(*ssa.MakeClosure); ok {
+					for _, b := range mc.Bindings {
+						bindings = append(bindings, e.val(b))
+					}
+				}
+				e.note("goroutine spawned: frame of " + c.Key + " havocked")
+				e.curBindings, e.spawning = bindings, true
+				e.applyContract(fr, st, c, callee, nil, args, x.Call.Signature().Results(), x.Pos())
+				break
+			}
+		}
 		e.note("goroutine spawned (not modelled): " + x.Call.String())
 		// spawned code may write anything it can reach: havoc everything
 		e.havocAll(st, "go")
